@@ -18,4 +18,12 @@ CHECKS = {
         "(key, IV, header, MAC, AD, level) is placed outside, at the start of, inside, or at the end of the output region; outputs and return codes must agree.",
    note="Only documented permissions are driven; inputs are pairwise disjoint (except memJoin); Release build for values, ASan build in thorough; "
         "lengths 16..100."),
+ "C10": dict(level="exploration",
+   technique="script-vs-one-shot differential on Start/Step/Get bundles with state relocation under ASan",
+   text="For 22 bundles (belt ECB/CBC/CFB/CTR/BDE/SDE/MAC/Hash/HMAC/DWP/CHE/KRP, bash hash and the four bash-prg step commands, brng CTR/HMAC, "
+        "botp HOTP/TOTP/OCRA) random and exhaustive (<= 2 cuts at every block-boundary position) fragmentations incl. empty fragments, "
+        "Get/Verify insertions where the header allows get-then-continue, and relocation of copyable states (copy to a fresh exact-size block, "
+        "old block overwritten with 0xDD and freed) are compared with the one-shot high-level function; intermediate Gets are compared with "
+        "the one-shot value of the prefix.",
+   note="Trusts the one-shot functions (tied to the standard by C01/C03); messages up to ~5 internal blocks; splits restricted to what each header permits."),
 }
